@@ -25,7 +25,7 @@ theorem prodCount_cons (r : Resp) (l : List Resp) :
 theorem benignAux_steady : ∀ (script : List Resp) (z n0 slen : Nat),
     benignAux script z n0 = true → prodCount script ≥ slen →
     (∀ r, script.getLast? = some r → r.err.isNone = true ∨ (prodCount script = slen ∧ r.k ≥ 1)) →
-    Steady 100 script slen z = true := by
+    Steady Facts.maxConsecutiveEmptyReads script slen z = true := by
   intro script
   induction script with
   | nil =>
@@ -73,12 +73,11 @@ theorem benignAux_steady : ∀ (script : List Resp) (z n0 slen : Nat),
           · exact Or.inl h1
           · exact Or.inr ⟨by omega, h2⟩
 
-theorem maxEmpty_eq : Facts.maxConsecutiveEmptyReads = 100 := by decide
 
 /-- the driver's `benign` scripts are `Steady` … -/
 theorem benign_steady (s : Src) (h : benign s = true) :
     Steady Facts.maxConsecutiveEmptyReads s.script s.stream.length 0 = true := by
-  rw [maxEmpty_eq]
+  
   simp only [benign, Bool.and_eq_true, decide_eq_true_eq] at h
   obtain ⟨⟨h1, h2⟩, h3⟩ := h
   refine benignAux_steady s.script 0 0 s.stream.length h1 h2 ?_
